@@ -18,7 +18,7 @@ INFO = {
     "outside": ["the C-level JSON codec (requests are delivered as Python objects)", "request sequences longer than the bound (the per-request check starts from an arbitrary configuration, which is the inductive step)"],
     "stubs": ["json / sys shims for kconfserver.core", "memfs behind kconfserver / kconfgen / core file access"],
 }
-BUDGET = {"quick": 240, "thorough": 800}
+BUDGET = {"quick": 330, "thorough": 800}
 
 VERS = [0, 1, 2, 3, 4, "3", None, 2.5]
 
@@ -31,7 +31,7 @@ def _names(tid):
 
 
 IVALS = [-3, 0, 7, 300]
-SVALS = ["", "y", "1f", "zz", "0x", "[/x]"]
+SVALS = ["", "y", "1f", "zz", "0x", "[/x]", "\ud800"]  # (the last one: a lone surrogate, which JSON can carry but UTF-8 cannot)
 
 
 def pick(lst, idx):
@@ -83,9 +83,9 @@ def mkreq(names, kind, vc, t, vt, i, s, b):
     elif kind == 5:
         req["save"] = v if vt != 3 else None
     elif kind == 6:
-        req["load"] = pick(("/m/other", "/m/[/missing]", "/m/proj"), i)  # existing file, missing file, a directory
+        req["load"] = pick(("/m/other", "/m/[/missing]", "/m/proj", "/m/ot\0her"), i)  # existing file, missing file, a directory, a name no OS call accepts
     elif kind == 7:
-        req["save"] = pick(("/m/saved", "/m/ro/saved", "/m/nodir/x"), i)
+        req["save"] = pick(("/m/saved", "/m/ro/saved", "/m/nodir/x", "/m/sa\0ved"), i)
     elif kind == 8:
         req["set"] = {names[0]: b, name: v}
     return req
@@ -128,7 +128,7 @@ def one(ctx, *args):
         fs_used = SV.S.open.__self__ if hasattr(SV.S.open, "__self__") else None
         bad_load = "load" in last and last["load"] is not None and not (isinstance(last["load"], str) and fs_used is not None and fs_used.isfile(last["load"]))
         sv = last.get("save")
-        bad_save = "save" in last and sv is not None and not (isinstance(sv, str) and fs_used is not None and sv != "" and fs_used.ismem(sv) and fs_used.isdir(fs_used.ab(sv).rsplit("/", 1)[0]) and fs_used.ab(sv) not in fs_used.unwritable and not fs_used.isdir(sv))
+        bad_save = "save" in last and sv is not None and not (isinstance(sv, str) and fs_used is not None and sv != "" and "\0" not in sv and fs_used.ismem(sv) and fs_used.isdir(fs_used.ab(sv).rsplit("/", 1)[0]) and fs_used.ab(sv) not in fs_used.unwritable and not fs_used.isdir(sv))
         if bad_load or bad_save:
             if not replies[-1].get("error"):
                 return False
@@ -158,7 +158,7 @@ def one(ctx, *args):
 def jobs(tier, seed, excluded=()):
     rng = random.Random(seed)
     dom = Dom(int_max=-1, int_cands=["7", "60"], str_mode="cand", str_cands=["p"], hex_cands=["0x1f"], float_cands=["0.25"])
-    trees = ["T03", "T07", "F:kconfserver/Kconfig"] if tier == "quick" else ["T03", "T04", "T05", "T07", "T09", "F:kconfserver/Kconfig"]
+    trees = ["T03", "T07", "T05", "F:kconfserver/Kconfig"] if tier == "quick" else ["T03", "T04", "T05", "T07", "T09", "F:kconfserver/Kconfig"]
     out = []
     tmo = 150 if tier == "quick" else 500
 
@@ -170,13 +170,16 @@ def jobs(tier, seed, excluded=()):
         nn = len(names)
         big = tid.startswith("F:")
 
-        def pre(j, vc, t, vt, iv=(0, 3), sv=(0, 5)):
+        def pre(j, vc, t, vt, iv=(0, 3), sv=(0, len(SVALS) - 1)):
             return "qk%d == 0 and %d <= qvc%d <= %d and %d <= qt%d <= %d and %d <= qvt%d <= %d and %d <= qi%d <= %d and %d <= qs%d <= %d" % (j, vc[0], j, vc[1], t[0], j, t[1], vt[0], j, vt[1], iv[0], j, iv[1], sv[0], j, sv[1])
 
         def smp(r, spec):
             o = []
-            for (vc, t, vt) in spec:
-                o += [0, r.randint(*vc), r.randint(*t), r.randint(*vt), r.randint(0, 3), r.randint(0, 5), bool(r.randint(0, 1))]
+            for sp in spec:
+                vc, t, vt = sp[:3]
+                iv = sp[3] if len(sp) > 3 else (0, 3)
+                sv = sp[4] if len(sp) > 4 else (0, len(SVALS) - 1)
+                o += [0, r.randint(*vc), r.randint(*t), r.randint(*vt), r.randint(*iv), r.randint(*sv), bool(r.randint(0, 1))]
             return o
 
         def add(tag, kinds, spec, budget=2):
@@ -215,6 +218,9 @@ def jobs(tier, seed, excluded=()):
         # sequences: bad first, then a valid-looking set
         for first in ([9, 3, 2] if tier == "quick" else [9, 3, 2, 4, 5, 6]):
             add("seq-%d-set" % first, [first, 0], [((3, 3), (0, 0), (1, 3)), ((3, 3), (0, 1), (0, 1))])
+        # a value that cannot be encoded, then a save (to another file / to the session's file)
+        add("seq-set-save", [0, 7], [((3, 3), tall, (2, 2), (0, 0), (5, len(SVALS) - 1)), ((3, 3), (0, 0), oneval, (0, 0))])
+        add("seq-set-savenull", [0, 5], [((3, 3), tall, (2, 2), (0, 0), (5, len(SVALS) - 1)), ((3, 3), (0, 0), (3, 3))])
         if tier == "thorough":
             add("seq3", [0, 9, 0], [((3, 3), (0, 2), (0, 2)), ((3, 3), (0, 0), oneval), ((3, 3), (0, 2), (0, 2))])
     return out
